@@ -9,6 +9,11 @@ import threading
 threading.stack_size(512 * 1024 * 1024)
 
 
+def _is_locked(lock):
+    v = lock.locked
+    return v() if callable(v) else v
+
+
 class Abort(BaseException):
     pass
 
@@ -78,7 +83,7 @@ class Sched:
             while True:
                 if all(t.done for t in self.tasks):
                     break
-                live = [t for t in self.tasks if not t.done and not (t.blocked is not None and t.blocked.locked)]
+                live = [t for t in self.tasks if not t.done and not (t.blocked is not None and _is_locked(t.blocked))]
                 if not live:
                     raise RuntimeError('deadlock: every unfinished task waits for a lock')
                 i = self.vm.pick('sched', len(live)) if len(live) > 1 else 0
